@@ -58,6 +58,10 @@ pub fn lattice_spaces<O: Oracle + Clone + 'static>(tier: Tier, oracle: O, label:
     }
     // k = 2
     for sk in extnum_shapes().into_iter().chain(small_shapes()) {
+        // quick: the unterminated-dynamic shape takes part with k <= 1 only (its header pairs equal those of phdrs-only)
+        if tier == Tier::Quick && sk.name.starts_with("phdrs-only-unterminated") {
+            continue;
+        }
         let p = PreparedSkeleton::new(sk, &header_sites);
         let pairs = if tier == Tier::Quick { coupled_pairs(&p, true).into_iter().filter(|(i, j)| p.sk.sites[*i].group == 0 && (p.sk.sites[*j].group == 0 || p.sk.sites[*j].group == 1000)).collect() } else { all_header_pairs(&p) };
         v.push(Box::new(Pairs::new(p, pairs, oracle.clone(), label)));
